@@ -117,7 +117,7 @@ theorem retry_resends_whole_unit (d : Driver) {s0 s s' : St} {ls : List Label} (
       s'.tasks[t]? = some tk' ∧ tk'.exc = tk.exc ∧ tk'.retry = tk.retry ∧ s'.lock = s.lock ∧ s'.log = s.log ∧
       tk'.prog = cleanup ++ withEdt d c [Act.rel] ++ [{ act := .rel }] ∧
       (∀ x ∈ cleanup, x.act.isCleanup = true) ∧ C15.writesOf cleanup = [] ∧
-      C15.writesOf (withEdt d c [Act.rel]) = C15.unitFrames d c ∧
+      (d.carries c.frame = true → C15.writesOf (withEdt d c [Act.rel]) = C15.unitFrames d c) ∧
       (c.frame.dt ≠ 0 → (C15.unitFrames d c).head? = some (edtFrame c.frame.dt)) ∧
       edtOK none (withEdt d c [Act.rel]) = true :=
   C15.retry_resends_whole_unit d h0 hd h ht hretry hstep
